@@ -121,15 +121,18 @@ def run_wide(case):
     dt = np.complex128 if case["cplx"] else np.float64
     M = crandn(rng, [m, n], dt)
     y = crandn(rng, [m, 1], dt)
-    if np.linalg.cond(M) > 50:
-        return inconclusive("generated matrix too ill-conditioned")
+    if np.linalg.cond(M) > 8:
+        # (the first-order solvers converge sublinearly here, at a rate set by the smallest
+        # singular value: only well-conditioned systems fit an iteration budget)
+        return inconclusive("generated matrix too ill-conditioned for an iteration budget",
+                            sig="lls-wide-illcond")
     A = sp.linop.MatMul([n, 1], M)
     solver = case["solver"]
     sig = "lls-wide|%s|%s" % (solver, "c" if case["cplx"] else "r")
     wit = dict(case)
     try:
-        x = sp.app.LinearLeastSquares(A, y, solver=solver, max_iter=case["max_iter"],
-                                      show_pbar=False).run()
+        mi_ = case["max_iter"] * (8 if case.get("_more") else 1)
+        x = sp.app.LinearLeastSquares(A, y, solver=solver, max_iter=mi_, show_pbar=False).run()
     except Exception as e:
         return violated(sig, "underdetermined least squares (%d x %d, lamda = 0) raised %s" % (
             m, n, type(e).__name__), wit, mech="wide-raised")
@@ -137,6 +140,10 @@ def run_wide(case):
     scale = 0.5 * float(np.sum(np.abs(y) ** 2))
     obs = {"objective": val, "norm_x": nrm(x), "m": m, "n": n}
     tol_ = 1e-8 if solver in (None, "ConjugateGradient", "ADMM") else 1e-4
+    if not (np.all(np.isfinite(x)) and val <= tol_ * scale) and not case.get("_more") and \
+            solver in ("GradientMethod", "PrimalDualHybridGradient", "ADMM") and \
+            np.all(np.isfinite(x)) and val <= 0.2 * scale:
+        return run_wide(dict(case, _more=True))     # small miss: decide with 8x the budget
     if not (np.all(np.isfinite(x)) and val <= tol_ * scale):
         return violated(sig, "underdetermined system %d x %d, lamda = 0: the optimal value is 0 "
                         "but the returned x has objective %.3g (||x|| = %.3g) with solver %s "
